@@ -1,6 +1,9 @@
+mod alloc;
 mod common;
+mod fparse;
 mod histex;
 mod model;
+mod parsex;
 mod polmat;
 mod probes;
 mod tracing;
@@ -8,6 +11,9 @@ mod wire;
 mod world;
 mod checks;
 mod fixtures;
+
+#[global_allocator]
+static GLOBAL: alloc::Counting = alloc::Counting;
 
 fn main() {
     let args: Vec<String> = std::env::args().skip(1).collect();
